@@ -938,13 +938,27 @@ func g10Discovery(r *Repo, rep *Report) {
 	// and names resolved into the derived file are queued for regeneration
 	visit := r.lookup("derive.(*finder).Visit")
 	if visit != nil {
+		// inside the `filename == derivedFilename` branch the call is appended to a list of the finder
 		queued := nodeHas(visit.Decl, func(n ast.Node) bool {
-			as, ok := n.(*ast.AssignStmt)
-			if !ok || len(as.Lhs) != 1 {
+			ifs, ok := n.(*ast.IfStmt)
+			if !ok || !nodeHas(ifs.Cond, func(m ast.Node) bool {
+				id, ok := m.(*ast.Ident)
+				return ok && id.Name == "derivedFilename"
+			}) {
 				return false
 			}
-			sel, ok := as.Lhs[0].(*ast.SelectorExpr)
-			return ok && sel.Sel.Name == "derived"
+			return nodeHas(ifs.Body, func(m ast.Node) bool {
+				as, ok := m.(*ast.AssignStmt)
+				if !ok || len(as.Lhs) != 1 || len(as.Rhs) != 1 {
+					return false
+				}
+				c, ok := as.Rhs[0].(*ast.CallExpr)
+				if !ok || exprStr(c.Fun) != "append" || len(c.Args) != 2 {
+					return false
+				}
+				_, isSel := as.Lhs[0].(*ast.SelectorExpr)
+				return isSel && exprStr(c.Args[0]) == exprStr(as.Lhs[0])
+			})
 		})
 		if queued {
 			rep.pass("G10")
